@@ -1,6 +1,7 @@
 """C22 — NotifyOutbox.tla: notification outbox entries exactly for committed mutations; at-least-once or dead-letter; bounded backoff."""
 import copy
 import json
+import os
 import random
 import re
 import threading
@@ -18,7 +19,10 @@ CHECKS = {
                 "unconstrained config) for every fault placement and publisher script within the bounds. Conformance: TLC "
                 "random walks over the same actions generate cases (rules with event/prefix/suffix filters, versioning, "
                 "EventBridge, MaxAttempts, backoff limits, lease, mutation programs over all event-emitting mutation kinds "
-                "with fault placements, publisher scripts incl. crashes, model-informed clock advances); the Go driver runs "
+                "with fault placements, publisher scripts incl. crashes, model-informed clock advances, long-outage presets of the "
+                "attempt counter) plus a deterministic spec-generated backoff sweep (attempt numbers 1..3, around the cap, "
+                "22/23, 33..36, 44/45, 62..65, 100 x MinBackoff/MaxBackoff configurations incl. default and inverted limits x "
+                "MaxAttempts unlimited/120, the exact Backoff(attempt) checked by BackoffBounded); the Go driver runs "
                 "them on the real StorageMiddleware + real SQLRepository on sqlite and TLC validates every logged step "
                 "(outbox table after every mutation, every Claim/Publish/Delete/Release/DeadLetter, final drain) against the "
                 "spec with all invariants evaluated in every state. Level: model checking of the design + trace-validated "
@@ -130,10 +134,13 @@ def _stats(trace):
     evs = set()
     claimed = set()
     nrows = 0
+    att = {}
+    rel_attempts = set()
     for r in trace:
         t = r["t"]
         if t == "Reset":
             s["cases"] += 1
+            att = {}
             claimed = set()
             nrows = 0
         elif t == "Mutate":
@@ -156,7 +163,10 @@ def _stats(trace):
         elif t == "OutboxRows":
             nrows = len(r["rows"])
             claimed = set(row["id"] for row in r["rows"] if row["claimed"])
+        elif t == "Preset":
+            s["preset"] = s.get("preset", 0) + 1
         elif t == "Claim":
+            att[r["id"]] = r["attempts"]
             if r["id"] in claimed:
                 s["lease_expiry_claims"] += 1
         elif t == "Publish":
@@ -164,6 +174,7 @@ def _stats(trace):
             s["publish_ok" if o == "ok" else "publish_fail" if o == "fail" else "publish_crash"] += 1
         elif t == "Release":
             s["release"] += 1
+            rel_attempts.add(att.get(r["id"], 0))
         elif t == "DeadLetter":
             s["deadletter"] += 1
         elif t == "Delete":
@@ -174,6 +185,7 @@ def _stats(trace):
             s["advance"] += 1
         elif t == "Final":
             s["final"] += 1
+    s["attempt_numbers_at_release"] = sorted(rel_attempts)
     s["rolled_back_by_fault"] = rolled
     s["mutation_kinds_committed"] = sorted(kinds_committed)
     s["event_names_enqueued"] = sorted(evs)
@@ -252,6 +264,8 @@ def run(ctx):
         except BaseException as e:  # noqa
             mc_res["error"] = e
 
+    if os.environ.get("VERIF_SKIP_MC"):  # debugging aid only (mutation / seeded runs)
+        groups = []
     mc_threads = [threading.Thread(target=mc_job, args=(g,)) for g in groups]
     for t in mc_threads:
         t.start()
@@ -267,10 +281,19 @@ def run(ctx):
             if g.outcome not in ("ok",):
                 raise vlib.Infra("case generation failed: %s\n%s" % (g.outcome, g.output[-3000:]))
             cases += _cases_from(g.printed)
-        if len(cases) < ncases // 2:
+        # deterministic backoff sweep: attempt classes (1,2,3, around the cap, 22..23, 33..36, 44..45, 62..65, 100)
+        # x MinBackoff/MaxBackoff configurations (incl. default / inverted limits) x MaxAttempts {unlimited, 120}
+        sw = ctx.tlc("NotifyOutboxGen", "NotifyOutbox.Sweep.cfg", workers=1, timeout=300, count_mc=False)
+        sweep = _cases_from(sw.printed)
+        if sw.outcome != "ok" or len(sweep) < 10:
+            raise vlib.Infra("backoff sweep generation failed: %s, %d cases\n%s" % (sw.outcome, len(sweep), sw.output[-2000:]))
+        rng.shuffle(sweep)
+        nrandom = len(cases)
+        cases = sweep + cases
+        if nrandom < ncases // 2:
             raise vlib.Infra("case generation produced only %d cases" % len(cases))
         vlib.write_ndjson(ctx.path("cases.ndjson"), cases)
-        ctx.log("GEN: %d cases (%d steps)" % (len(cases), sum(len(c["prog"]) for c in cases)))
+        ctx.log("GEN: %d random-walk cases + %d backoff-sweep cases (%d steps)" % (nrandom, len(sweep), sum(len(c["prog"]) for c in cases)))
 
         # ---- 3. execute on the real middleware
         drv = ctx.gobuild("notify")
@@ -370,6 +393,11 @@ def run(ctx):
         seen_events = set(s["event_names_enqueued"]) & all_events
         needed["event_names(%d of %d)" % (len(seen_events), len(all_events))] = \
             1 if len(seen_events) >= ctx.pick(7, len(all_events)) else 0
+        ra = set(s["attempt_numbers_at_release"])
+        needed["backoff_at_attempts_1..3"] = 1 if {1, 2, 3} <= ra else 0
+        needed["backoff_at_attempts_33..36"] = 1 if {33, 34, 35, 36} <= ra else 0
+        needed["backoff_at_attempts_62..65"] = 1 if {62, 63, 64, 65} <= ra else 0
+        needed["backoff_at_attempt_100"] = 1 if 100 in ra else 0
         missing = [k for k, v in needed.items() if v == 0]
         if missing and not ctx.violations:
             raise vlib.Infra("behaviour the property depends on was never exercised: %s" % missing)
@@ -394,11 +422,14 @@ def run(ctx):
         "worker crash = panic inside Publisher.Publish recovered by the driver + a new StorageMiddleware instance (new claim owner)",
         "BatchSize=1, Concurrency=1 (the defaults) on real code; two concurrent workers are explored in the model only",
         "AppendObject emits no event (events.go defines none): modelled as a pass-through outside the notification transaction",
+        "large attempt numbers are reached by raising the attempts column of idle pending rows directly in the table "
+        "(Preset = long outage); Backoff is a function of the attempt number only",
         "attempts may exceed MaxAttempts by one per lease expiry (crashed worker): AttemptsNeverExceedMax is stated as "
         "attempts <= MaxAttempts + lease expiries of that entry",
     ]
     return ("TLC -simulate walks over NotifyOutbox.tla's actions (seeded) emit cases = (rules/filters/versioning/EventBridge/"
             "MaxAttempts/backoff/lease/stack, publisher script incl. crashes, program of mutations x fault placement, "
-            "dispatcher passes and model-informed clock advances); each runs on the real StorageMiddleware and is "
+            "dispatcher passes, model-informed clock advances, long-outage presets) + the spec's deterministic backoff sweep "
+            "over attempt-number classes x backoff limits; each runs on the real StorageMiddleware and is "
             "trace-validated; non-trivial = at least one entry enqueued and (a fault rolled a mutation back or a publish "
             "failed/crashed), distinct by configuration + program")
